@@ -1,6 +1,6 @@
 """C15 — extended attributes read back exactly as set (rapidcheck sequences vs map model; in-inode / block / ea_inode; ASan+UBSan; e2fsck at the end)."""
 import os
-from vlib import rc, rcheck, run as vrun, build, fsgen
+from vlib import core, rc, rcheck, run as vrun, build, fsgen
 LEVEL = 'exploration'
 RULE = ('rapidcheck generates a template (inode size 128/256/512/1024 x ea_inode x metadata_csum x 1k/4k x inline_data) and 2-40 ops on a regular file, a directory and an inline-data file: '
         'set (12 names per case over user./trusted./security./system./posix_acl prefixes with suffix lengths 1..255; value sizes 0, tiny, in-inode free space +-8, block free space +-8, beyond one block), '
@@ -41,7 +41,7 @@ def _env(ctx):
     plain = vrun.Tools(build.ensure('plain')); asan = vrun.Tools(build.ensure('asan'))
     td = os.path.join(d, 'c15'); os.makedirs(td, exist_ok=True)
     n = make_templates(plain, td, ctx)
-    return {'PBT_DIR': td, 'PBT_NTPL': str(n), 'PBT_E2FSCK': asan.e2fsck}
+    return {'PBT_DIR': td, 'PBT_NTPL': str(n), 'PBT_E2FSCK': asan.e2fsck, 'PBT_VERIFY': os.path.join(core.VERIF, 'bin', 'xattrverify')}
 
 def run(ctx):
     ex = exes(); env = _env(ctx)
